@@ -35,6 +35,20 @@ def main(argv=None):
         print("CHECKER-BROKEN: no check module for %s (%s)" % (pid, e), file=sys.stderr)
         return core.EXIT_BROKEN
     if a.replay:
+        import json
+        import tempfile
+
+        rec = json.load(open(a.replay))
+        if rec.get("replay_obligation"):
+            # the recorded input fails a run-time clause of the same property on the real code: replay judges that clause
+            print("recorded for %s; the input was found by the bounded run and fails %s" % (rec["obligation"], rec["replay_obligation"]))
+            rec["obligation"] = rec["replay_obligation"]
+            with tempfile.NamedTemporaryFile("w", suffix=".json", delete=False, dir=os.path.dirname(os.path.abspath(a.replay))) as f:
+                json.dump(rec, f)
+            try:
+                return mod.replay(f.name)
+            finally:
+                os.unlink(f.name)
         return mod.replay(a.replay)
     return core.run_check(pid, a.tier, a.seed, mod.run, mod.LEVEL)
 
